@@ -32,7 +32,6 @@ namespace occa {
       + props["modes/" + mode + "/" + object]
     );
 
-    allProps.remove(object + "/modes");
     allProps.remove("modes");
 
     return allProps;
